@@ -55,6 +55,7 @@ struct Runner {
         VT_CHECK(ctx, d[(size_t)(base + fit)] == 0, "mismatch", "bounded-terminator; " << what << " did not terminate at offset " << base + fit);
         VT_CHECK(ctx, r == (fit == (long)src.size() ? 1 : 0), "mismatch", "bounded-return; " << what << " returned " << r << " but " << (fit == (long)src.size() ? "nothing" : "something") << " was cut off");
         if (size == 1) ctx.label("bounded:size==1");
+        if (cat && dlen >= 65536) ctx.label("strncat:destination-longer-than-65535");
         if (room == (long)src.size()) ctx.label("bounded:exact-fit");
         if (room + 1 == (long)src.size()) ctx.label("bounded:one-short");
         if (size == (long)src.size()) ctx.label("bounded:size==srclen");
@@ -160,6 +161,10 @@ rc::Gen<Case> gen_case() {
             long base = cat ? dlen : 0;
             switch (sk) { case 0: size = 1; break; case 1: size = base + (long)src.size(); break; case 2: size = base + (long)src.size() + 1; break; case 3: size = base + (long)src.size() + 2; break; case 4: size = std::max<long>(1, base); break; default: size = *range(1, 400); }
             if (size < 1) size = 1;
+            if (cat && *range(0, 11) == 0) {   // a destination that is already longer than 16 bits can count
+                dlen = *rc::gen::elementOf(std::vector<long>{65534, 65535, 65536, 65537, 70001});
+                size = dlen + *rc::gen::elementOf(std::vector<long>{1, 2, (long)src.size(), (long)src.size() + 1, (long)src.size() + 9});
+            }
             for (auto &ch : src) if (!ch) ch = 'z';
             c.push_back(mk("bounded", {cat, 0, cat ? dlen : 0, size}, {src}));
         } else if (k < 5) {
